@@ -48,14 +48,14 @@ CHECKS = {
    text="Exploration: when a node's store applies the write of its own batch, and when it proposes its digest, the peers whose acknowledgement frames (paired per connection with the batch frame) had been written by then, plus the node, must hold a quorum of stake (computed independently).",
    note="'Sent by the peer' is earlier than 'received by the node' (permissive direction). One known finding (own batch re-entering via a peer) is reported as KNOWN-FINDING."),
  "C13": dict(ref="5/C13", tech="deterministic simulation + seeded load/missed-broadcast search; end-to-end monitor at a bounded deadline",
-   text="Exploration with bounded liveness: without crashes or view-change faults, every transaction submitted before the load ends must be in a batch referenced by a block committed by every node, with the batch bytes stored by each, by load end + 1 s + 3 x (sync_retry_delay + 8 s); nodes whose mempool links are cut miss broadcasts and must fetch the batches.",
+   text="Exploration with bounded liveness: without crashes or view-change faults, every transaction submitted before the load ends must be in a batch referenced by a block committed by every node, with the batch bytes stored by each, by load end + 1 s + 3 x (sync_retry_delay + 8 s); nodes whose mempool links are cut miss broadcasts and must fetch the batches; 30% of the scenarios add a burst of 40-100 n single-transaction batches within 1-60 ms (blocks with far more than 32 digests).",
    note="Required probes ensure batch requests and helper replies actually occurred."),
  "C19": dict(ref="5/C19", tech="deterministic simulation + seeded fault/schedule search; independent certificate checker on every emitted QC/TC",
    text="Exploration: every QC and TC an honest node emits (in proposals, timeouts, TC broadcasts) is re-verified independently (distinct members, quorum stake, every signature valid for one (block, round) resp. (round, high-QC round)); no TC is sent twice to a peer.",
    note="The exactly-when half is decided in the puppet world."),
 
- "C04": dict(ref="5/C04", tech="deterministic simulation (puppet world: one real node, harness holds all other keys) + seeded search over 33 kinds of invalid variant; 'no effect' oracles on votes, store writes, round evidence and emitted certificates",
-   text="Exploration: invalid variants of proposals, votes, timeouts, QCs and TCs (flipped signature bits, altered signed fields with the signature kept, signatures transplanted between blocks and message kinds, repeated / non-member signers, one signer below quorum, certificates over another round or for future rounds, superfluous invalid TCs on otherwise valid proposals, degenerate round-0 / zero-hash certificates) are delivered between valid traffic; the node must never vote for, store or commit a block of which it only saw an invalid variant, never act in a round that only an invalid certificate justifies, never emit a certificate containing an invalid vote/timeout, and must still vote for the next valid proposal after rejections.",
+ "C04": dict(ref="5/C04", tech="deterministic simulation (puppet world: one real node, harness holds all other keys) + seeded search over 36 kinds of invalid variant; 'no effect' oracles on votes, store writes, round evidence and emitted certificates",
+   text="Exploration: invalid variants of proposals, votes, timeouts, QCs and TCs (flipped signature bits, altered signed fields with the signature kept, signatures transplanted between blocks and message kinds, repeated / non-member signers, one signer below quorum, certificates over another round or for future rounds, superfluous invalid TCs on otherwise valid proposals, degenerate round-0 / zero-hash certificates, certificates padded with an invalid entry after a genuine quorum) are delivered between valid traffic; the node must never vote for, store or commit a block of which it only saw an invalid variant, never act in a round that only an invalid certificate justifies, never emit a certificate containing an invalid vote/timeout, and must still vote for the next valid proposal after rejections.",
    note="The twin-run non-interference oracle of DESIGN.md was not built; 'behaviour unchanged' is judged through the no-effect oracles and the expected-vote model."),
  "C20": dict(ref="5/C20", tech="deterministic simulation (puppet world) + seeded single-field-variant and cross-kind splice injection judged by the node's reaction; store/wire round trip through the real sync path",
    text="Exploration: variants differing in one bound field (author, round, payload entry, parent, payload/parent boundary shift, swapped round/QC round) or carrying a signature of another kind (vote<->timeout<->block) re-use the original signature and must be rejected (no vote, no store); blocks fetched from the node's helper must be byte-identical to a block it was given under that digest; every frame the node writes must decode and its own signatures must verify under the independently computed digests.",
@@ -67,7 +67,7 @@ CHECKS = {
    text="Exploration in both build configurations: 20-200 hostile inputs per run (random bytes, oversize and truncated frames, mutated copies of real frames, out-of-range tags, huge lengths, malformed key strings, cross-component digests of the shared store, unknown origins, absurd rounds signed by a harness-held authority, 1 MiB transactions) followed by probes of every service of every node: still commits, answers a block sync request and a batch request from its store, batches a fresh transaction; any panic inside /repo code is a violation.",
    note="Found and repaired two genuine defects (see known_findings.json). Decoder totality is exercised where reachable from the wire and from the JSON files read by Node::new, not by direct calls."),
  "C16": dict(ref="5/C16", tech="deterministic simulation of the real Store (RocksDB) under several concurrent handles with seeded yields; exact command order from store-side taps checked against a map model; reopen",
-   text="Exploration: 2..6 client tasks, 1..4 overlapping keys, unique values, writes / reads / notify-reads with several waiters per key registered before and after writes; every result is compared with a sequential map model replayed in the exact order in which the store task took up the commands; every notify-read on a written key has returned at quiescence with the first value written after its registration (or the current one), those on unwritten keys stay pending; after dropping all handles the store is reopened and every key reads its last value.",
+   text="Exploration: 2..6 client tasks, 1..4 overlapping keys, values that are unique strings, the empty byte string or a single zero byte, writes / reads / notify-reads with several waiters per key registered before and after writes; every result is compared with a sequential map model replayed in the exact order in which the store task took up the commands; every notify-read on a written key has returned at quiescence with the first value written after its registration (or the current one), those on unwritten keys stay pending; after dropping all handles the store is reopened and every key reads its last value.",
    note="Interleavings are varied by seeded yields and tokio knobs rather than by an own poll-order scheduler (DESIGN.md said scheduler; corrected there). Process kill is not simulated."),
 }
 
